@@ -95,6 +95,7 @@ type State struct {
 	ufApps   map[string][]ufApp
 	seq      map[string]int
 	ghost    map[string]Value
+	wit      []*Witness
 }
 
 type ufApp struct {
@@ -121,6 +122,7 @@ func (st *State) clone(e *Engine) *State {
 		ufApps:  make(map[string][]ufApp, len(st.ufApps)),
 		seq:     make(map[string]int, len(st.seq)),
 		ghost:   make(map[string]Value, len(st.ghost)),
+		wit:     append([]*Witness(nil), st.wit...),
 	}
 	st.ep = &epoch{}
 	for i, f := range st.frames {
